@@ -215,6 +215,11 @@ func (db *ContractDB) loadFile(path, pkgPath string) error {
 			}
 			db.Ghosts[g.Name] = g
 			cur = nil
+		case "opaque":
+			for _, p := range strings.Fields(rest) {
+				opaqueTypes[p] = true
+			}
+			cur = nil
 		case "purepkg":
 			for _, p := range strings.Fields(rest) {
 				db.PurePkgs[p] = true
